@@ -9,6 +9,8 @@ mod elfgen;
 mod cli;
 mod par;
 mod irgen;
+mod walkgen;
+mod walkrun;
 mod out;
 mod props;
 mod rng;
@@ -27,6 +29,7 @@ fn main() {
     }
     // a panic of code under test is data: silence the default hook output
     if std::env::var_os("CWE_CONF_DEBUG").is_none() {
+    if std::env::var("VERIF_PANIC_TRACE").is_err() {
         std::panic::set_hook(Box::new(|_| {}));
     }
     let mut seed = 1u64;
